@@ -42,6 +42,7 @@ type decFacts struct {
 	Func string  `json:"func"` // function name, or "func literal"
 	Ops  []decOp `json:"ops"`
 	Pos  string  `json:"pos"`
+	Alt  bool    `json:"alt"` // an additional path of the decoder above (not a registration of its own)
 }
 
 type decOut struct {
@@ -55,6 +56,7 @@ type decCtx struct {
 	slices   map[string]bool // tracked slice expressions (source text)
 	asserted map[string]bool // variables bound by a payload assertion
 	ops      []decOp
+	branches [][]decOp // completed alternative paths (an `if x, ok := …; ok { … return }` body)
 	depth    int
 }
 
@@ -66,6 +68,14 @@ func (c *decCtx) pos(n ast.Node) string {
 
 func (c *decCtx) unknown(n ast.Node, what string) {
 	c.ops = append(c.ops, decOp{Op: "unknown", What: what, Pos: c.pos(n)})
+}
+
+func endsWithReturn(b *ast.BlockStmt) bool {
+	if b == nil || len(b.List) == 0 {
+		return false
+	}
+	_, ok := b.List[len(b.List)-1].(*ast.ReturnStmt)
+	return ok
 }
 
 func isNilReturn(b *ast.BlockStmt) bool {
@@ -290,6 +300,43 @@ func (c *decCtx) block(b *ast.BlockStmt, under int, underSlice string) {
 			}
 		case *ast.IfStmt:
 			if s.Init != nil {
+				// `if x, ok := payload.(*T); !ok { return nil }`  — the assertion with its give-up guard in
+				// one statement (x is not in scope afterwards);
+				// `if x, ok := payload.(*T); ok { … return … }`     — the decoder proper runs only on a payload of
+				// the right type; what follows the statement runs on every other payload and is analysed
+				// as a path of its own (it cannot mention x).
+				if as, ok := s.Init.(*ast.AssignStmt); ok && len(as.Lhs) == 2 && len(as.Rhs) == 1 && s.Else == nil {
+					if ta, ok := as.Rhs[0].(*ast.TypeAssertExpr); ok {
+						if id, ok := ta.X.(*ast.Ident); ok && c.payload != "" && id.Name == c.payload {
+							x, _ := as.Lhs[0].(*ast.Ident)
+							okv, _ := as.Lhs[1].(*ast.Ident)
+							if x != nil && okv != nil && okv.Name != "_" {
+								if u, isNot := s.Cond.(*ast.UnaryExpr); isNot && u.Op == token.NOT {
+									if cid, ok := u.X.(*ast.Ident); ok && cid.Name == okv.Name && isNilReturn(s.Body) {
+										c.ops = append(c.ops, decOp{Op: "assert", Ok: true, Pos: c.pos(s)})
+										continue
+									}
+								}
+								if cid, ok := s.Cond.(*ast.Ident); ok && cid.Name == okv.Name && endsWithReturn(s.Body) {
+									// path "payload has the type": the body, with x bound
+									sub := &decCtx{pk: c.pk, funcs: c.funcs, payload: c.payload, slices: c.slices, asserted: map[string]bool{}, depth: c.depth}
+									for k := range c.asserted {
+										sub.asserted[k] = true
+									}
+									if x.Name != "_" {
+										sub.asserted[x.Name] = true
+									}
+									sub.block(s.Body, under, underSlice)
+									// it is a path of its own: the statements after the `if` are not reached on it.
+									// Its operations are appended behind a marker so that the checker sees both
+									// paths: first the body (guarded by a checked assertion), then the rest.
+									c.branches = append(c.branches, append(append([]decOp{}, c.ops...), append([]decOp{{Op: "assert", Ok: true, Pos: c.pos(s)}}, sub.ops...)...))
+									continue
+								}
+							}
+						}
+					}
+				}
 				c.unknown(s, "if with an init statement")
 				continue
 			}
@@ -434,6 +481,13 @@ func extractDecoders(pkgs map[string]*pkgInfo) interface{} {
 						df.Ops = []decOp{}
 					}
 					out.Decoders = append(out.Decoders, df)
+					for bi, br := range c.branches {
+						alt := df
+						alt.Func = fmt.Sprintf("%s#path%d", df.Func, bi+1)
+						alt.Ops = br
+						alt.Alt = true
+						out.Decoders = append(out.Decoders, alt)
+					}
 					return true
 				})
 			}
